@@ -847,11 +847,17 @@ class Scheduler:
             else:
                 weight_tensor_purpose = TensorSubPurpose.Standard
 
+            # A single buffer holds every depth slice in turn, so it has to be large enough for the largest one
+            first_buffer_size = (
+                encoded_weights.double_buffer_sizes[0]
+                if weight_tensor_purpose == TensorSubPurpose.DoubleBuffer
+                else weight_buffer_size
+            )
             cost.buffered_weight_tensors = [
                 self.buffer_tensor(
                     encoded_weights,
                     weight_tensor_purpose,
-                    encoded_weights.double_buffer_sizes[0],
+                    first_buffer_size,
                     weight_tensor.name + "_buffer",
                 )
             ]
@@ -932,13 +938,14 @@ class Scheduler:
             cost = sched_op.create_scheduler_info(self.nng, stripe)
 
             weight_tensor = cost.npu_weights_tensor
-            for idx, buffered_tens in enumerate(ref_cost[sched_op].buffered_weight_tensors):
+            ref_buffers = ref_cost[sched_op].buffered_weight_tensors
+            for idx, buffered_tens in enumerate(ref_buffers):
                 # If the weights are buffered in the reference schedule they should be in the new proposal
                 cost.buffered_weight_tensors.append(
                     self.buffer_tensor(
                         weight_tensor,
                         buffered_tens.sub_purpose,
-                        weight_tensor.double_buffer_sizes[idx],
+                        weight_tensor.double_buffer_sizes[idx] if len(ref_buffers) > 1 else weight_tensor.max_range_bytes(),
                         buffered_tens.name,
                     )
                 )
